@@ -65,6 +65,24 @@ def resolve (p : Bytes) : List Bytes :=
     else if c == [dot, dot] then stack.dropLast
     else stack ++ [c]) []
 
+/-- one step of `build::resolve_inside` (the repair of F-C19-a/b/c) on the stack of names **below the root**, in a world without
+    symbolic links: a name pushes, `.` and empty components vanish (`Path::components`), `..` pops — and popping at the
+    root itself leaves the build root, which is refused (`!resolved.starts_with(&root)` ⇒ `bail!`) -/
+def istep (st : Option (List Bytes)) (c : Bytes) : Option (List Bytes) :=
+  match st with
+  | none => none
+  | some s =>
+    if c.isEmpty || c == [dot] then some s
+    else if c == [dot, dot] then (if s.isEmpty then none else some s.dropLast)
+    else some (s ++ [c])
+
+/-- `resolve_inside(root, path, _)` for the remainder `rest` that `join_suffix` keeps of the client-supplied path:
+    `some q` = resolved to `root/q…`, `none` = refused -/
+def resolveInside (rest : Bytes) : Option (List Bytes) := (splitSlash rest).foldl istep (some [])
+
+/-- the remainder `join_suffix` keeps of a client-supplied path -/
+def suffixRest (suffix : Bytes) : Bytes := if hasRoot suffix then trimRight (trimLeft suffix) else trimRight suffix
+
 def confined (target p : Bytes) : Bool := (resolve target).isPrefixOf (resolve p)
 
 def s (x : String) : Bytes := x.toUTF8.toList
